@@ -440,6 +440,11 @@ def check_c11(tier, replay=None):
                 ev(" ".join(parts), 0 if first else 2, "terminal evaluation, rising full-move number")
                 first = False
             ev(flip_fen(" ".join(parts)), 1, "terminal evaluation of the colour-flipped twin")
+            # mate and stalemate end the game whatever the half-move clock says (also at and beyond 100)
+            for h in (rng.sample([1, 50, 99, 100, 101, 150, 4000], 3) if not T else [1, 50, 99, 100, 101, 150, 4000]):
+                parts[4] = str(h)
+                ev(" ".join(parts), 0, "terminal evaluation at half-move clock %d" % h)
+                ev(flip_fen(" ".join(parts)), 1, "terminal evaluation of the colour-flipped twin")
         # search symmetry and mate preference through the engine
         for f in rng.sample(SPARSE, 12 if T else 5):
             for d in ((1, 2, 3) if T else (1, 2)):
